@@ -195,8 +195,8 @@ def check_c(program: tuple, media: Tuple[str, ...]) -> Dict[str, Any]:
                 out['restores'] += 1
             if errors:
                 out['violations'].append({'clause': 'stuck-after-restore', 'features': {'part': 'C'}, 'detail': errors, 'case': case})
-            elif got != ref:
-                what = ['outcome', 'outputs', 'persisted-trace', 'executed-steps', 'status'][next(i for i in range(5) if got[i] != ref[i])]
+            elif got[:4] != ref[:4]:  # (the status message is C05's business and is judged there, see c05.check_restored_pause)
+                what = ['outcome', 'outputs', 'persisted-trace', 'executed-steps'][next(i for i in range(4) if got[i] != ref[i])]
                 out['violations'].append({'clause': f'differs:{what}', 'features': {'part': 'C'},
                                           'detail': {'got': got, 'reference': ref}, 'case': case})
     return out
